@@ -38,7 +38,7 @@ m('A06-fetch_n-publishes-buffer-len', [(IT, '''                _ => {
                     let older_count = self.progress_yielded_counter(n);''', '''                _ => {
                     let older_count = self.progress_yielded_counter(buffer.len());
                     let values = buffer.into_iter();''')], [], 'equivalent since repair S7e: buffer.len() < n only when the wrapped iterator ended, and then completed is set, so no waiter depends on the yielded count any more')
-m('A07-buffered-pull-publishes-filled', [(BI, 'let older_count = iter.progress_yielded_counter(self.chunk_size());', 'let older_count = iter.progress_yielded_counter(i.max(1));')], ['C09', 'C01'])
+m('A07-buffered-pull-publishes-filled', [(BI, 'let older_count = iter.progress_yielded_counter(self.chunk_size());', 'let older_count = iter.progress_yielded_counter(i.max(1));')], [], 'equivalent since repair S11: the filled count is below the chunk size only when the wrapped iterator ended, and then completed is set (it was caught by C09 as a deadlock before S11)')
 m('A08-buffered-chunk-len-is-chunk-size', [(BI, '''        match i {
             0 => None,''', '''        let i = if i > 1 { self.values.len() } else { i };
         match i {
